@@ -107,9 +107,9 @@ def support_sign(ctx, R="R-C07-support-sign"):
                   "offset with max_centered=%s is %s" % (mc, v))
 
 
-def config_live(ctx, R="R-C07-config-live", floor=6):
+def config_live(ctx, R="R-C07-config-live", floor=6, module="filters", attr="EFFECTIVE_SUPPORT_THRESHOLD"):
     prog = ctx.prog
-    fm = prog.module("filters")
+    fm = prog.module(module)
     n = 0
     for f in [x for x in prog.functions.values() if x.module is fm]:
         for p, d in f.defaults.items():
@@ -122,7 +122,7 @@ def config_live(ctx, R="R-C07-config-live", floor=6):
                                 "honoured by some support computations and not by this one (temporal and frequency supports then disagree)" % (p, q),
                                 "config values are read at call time")
         for x in f.body_nodes():
-            if isinstance(x, ast.Attribute) and prog.qualify(fm, x, f) == "pydrobert.speech.config.EFFECTIVE_SUPPORT_THRESHOLD":
+            if isinstance(x, ast.Attribute) and prog.qualify(fm, x, f) == "pydrobert.speech.config." + attr:
                 n += 1
             elif isinstance(x, ast.Name) and isinstance(x.ctx, ast.Load) and (prog.qualify(fm, x, f) or "").startswith("pydrobert.speech.config.") \
                     and x.id not in f.all_param_names():
@@ -133,9 +133,9 @@ def config_live(ctx, R="R-C07-config-live", floor=6):
         for v in vals:
             for x in ast.walk(v):
                 if isinstance(x, (ast.Attribute,)) and (prog.qualify(fm, x) or "").startswith("pydrobert.speech.config."):
-                    ctx.bad(R, "filters", "%s = %s" % (name, astq.text(v)), "module-level constant %s freezes a config value at import time" % name, module=fm)
+                    ctx.bad(R, module, "%s = %s" % (name, astq.text(v)), "module-level constant %s freezes a config value at import time" % name, module=fm)
     ctx.floor(R, n, floor)
-    ctx.ok(R, fm.rel, "%d reads of config.EFFECTIVE_SUPPORT_THRESHOLD, all inside function bodies (call time)" % n)
+    ctx.ok(R, fm.rel, "%d reads of config.%s, all inside function bodies (call time)" % (n, attr))
 
 
 def purity(ctx, R="R-C07-pure"):
